@@ -66,7 +66,7 @@ func init() {
 		Cases: func(tier string) int {
 			bundles := 2
 			if tier == "thorough" {
-				bundles = 20
+				bundles = 60
 			}
 			return bundles * len(c18Specs) * 3
 		},
